@@ -134,8 +134,16 @@ func (r *result) add(prop string, cell any, params, why string) {
 	}
 }
 
+// litNull: mkReq("null") keeps the literal (see there).
+var litNull bool
+
 // mkReq builds a server-side request with the given params text ("" = absent).
 func mkReq(params string) *jrpc2.Request {
+	if params == "null" && litNull {
+		// the wire parser folds a null params member into "absent"; a request built from a ParsedRequest (which is how a
+		// proxy or a test hands one on) carries the literal, and encoding/json decodes it into the zero value all the same
+		return (&jrpc2.ParsedRequest{ID: "1", Method: "m", Params: json.RawMessage("null")}).ToRequest()
+	}
 	txt := `{"jsonrpc":"2.0","id":1,"method":"m"}`
 	if params != "" {
 		txt = `{"jsonrpc":"2.0","id":1,"method":"m","params":` + params + `}`
@@ -528,6 +536,11 @@ func expectValue(params string, names []string, target any, strict bool) error {
 func checkWrap(c WrapCell, vs map[string]variant, res *result) {
 	if c.Out == "na" {
 		return
+	}
+	if c.P == "null" && !litNull {
+		litNull = true
+		checkWrap(c, vs, res)
+		litNull = false
 	}
 	v := vs[c.V]
 	params, ok := v.params[c.P]
@@ -1004,6 +1017,64 @@ func checkPosRewrap(res *result) {
 	}
 }
 
+// checkPosInterfaces: arguments of interface kind (any, []any, map[string]any) receive what encoding/json decodes from their
+// element into a variable of that type - numbers as float64 included - in the array form and in the keyed form alike.
+func checkPosInterfaces(res *result) {
+	type seen struct {
+		A any
+		B []any
+		C map[string]any
+		D int
+	}
+	var last seen
+	calls := 0
+	fi, err := handler.Positional(func(_ context.Context, a any, b []any, c map[string]any, d int) (bool, error) {
+		calls++
+		last = seen{a, b, c, d}
+		return true, nil
+	}, "a", "b", "c", "d")
+	if err != nil {
+		res.add("C16", "Positional, interface kinds", "", "Positional rejected a documented signature: "+err.Error())
+		return
+	}
+	h := fi.Wrap()
+	names := []string{"a", "b", "c", "d"}
+	for _, el := range [][]string{
+		{`3`, `[1,2.5,"x"]`, `{"k":7,"n":[1]}`, `4`},
+		{`"s"`, `[]`, `{}`, `0`},
+		{`{"x":1e3}`, `[[1],[{"y":2}]]`, `{"k":null}`, `-1`},
+		{`null`, `null`, `null`, `null`},
+		{`9007199254740993`, `[9007199254740993,true]`, `{"k":9007199254740993}`, `5`},
+		{`[0.1,{"z":[2]}]`, `[null]`, `{"a":{"b":{"c":12}}}`, `12`},
+	} {
+		var want seen
+		for i, dst := range []any{&want.A, &want.B, &want.C, &want.D} {
+			if e := json.Unmarshal([]byte(el[i]), dst); e != nil {
+				res.add("C16", "Positional, interface kinds", el[i], "harness: reference decoding failed: "+e.Error())
+			}
+		}
+		var kv []string
+		for i, n := range names {
+			kv = append(kv, fmt.Sprintf("%q:%s", n, el[i]))
+		}
+		for _, params := range []string{"[" + strings.Join(el, ",") + "]", "{" + strings.Join(kv, ",") + "}"} {
+			calls, last = 0, seen{}
+			_, herr, p := callSafely(h, mkReq(params))
+			res.Evaluations++
+			res.Classes["pos/interface-kinds"]++
+			cell := "Positional(func(ctx, a any, b []any, c map[string]any, d int))"
+			switch {
+			case p != nil:
+				res.add("C16", cell, params, fmt.Sprintf("wrapper panicked: %v", p))
+			case herr != nil || calls != 1:
+				res.add("C16", cell, params, fmt.Sprintf("err=%v, %d calls; want exactly one call", herr, calls))
+			case !reflect.DeepEqual(last, want):
+				res.add("C16", cell, params, fmt.Sprintf("function saw %#v; encoding/json decodes the elements into %#v", last, want))
+			}
+		}
+	}
+}
+
 // checkPosUnnamed: name lists with a slot that has no name ("" or "-": such an argument cannot be given by key).  The exact
 // length rule of the array form is about the n arguments, not about the names that happen to be usable as keys; the object
 // form knows the remaining names only.  (What an array of exactly n elements does in the presence of such a slot is
@@ -1422,6 +1493,7 @@ func TestAdapt(t *testing.T) {
 			checkArgsElementwise(res)
 			checkPosUnnamed(res)
 			checkPosRewrap(res)
+			checkPosInterfaces(res)
 			checkStrictNested("C16", res)
 			for _, c := range tab.Pos {
 				res.Cells++
